@@ -113,13 +113,6 @@ Proof.
   - cbn [nest]. rewrite IH by (try assumption; lia). reflexivity.
 Qed.
 
-Lemma to_bytes_length_ge s : length s <= length (to_bytes s).
-Proof.
-  induction s as [|b r IH]; [reflexivity|]. cbn [to_bytes length]. rewrite app_length.
-  assert (1 <= length (bit_bytes b)); [|lia].
-  destruct b as [c|d|c d|c p q|d]; cbn [bit_bytes length]; try lia.
-Abort.
-
 Lemma from_bytes_straight s : straight s = true -> from_bytes (to_bytes s) = Ok s.
 Proof.
   intros Hs. unfold from_bytes.
@@ -404,3 +397,13 @@ Proof.
   cbn [has_sep existsb] in Hp. apply orb_false_iff in Hp. destruct Hp as [Hb Hr].
   cbn [sep_pos]. fold (has_sep r) in Hr. rewrite Hr, Hb. reflexivity.
 Qed.
+
+(* without a separator in front of the check the script code is the whole locking script *)
+Lemma code_of_no_sep : forall ts start, forallb (fun x => negb (is_separator x)) ts = true -> code_of start ts = start.
+Proof.
+  induction ts as [|x r IH]; intros start H; cbn [code_of]; [reflexivity|].
+  cbn [forallb] in H. apply andb_true_iff in H. destruct H as [Hx Hr]. apply negb_true_iff in Hx. rewrite Hx.
+  destruct (is_check x); [reflexivity|apply IH; exact Hr].
+Qed.
+Lemma script_code_no_sep l : forallb (fun x => negb (is_separator x)) l = true -> script_code l = l.
+Proof. intros H. unfold script_code. apply code_of_no_sep. exact H. Qed.
